@@ -390,3 +390,16 @@ pub fn a4() -> OptionParser<(Vec<Flag3>, bool)> {
     let s = short('s').long("sw").switch();
     construct!(alt, s).to_options()
 }
+
+// ---------------------------------------------------------------------------------------------
+// byte-exact probes for the text layer (C02): OsString values, so nothing is lost in conversion
+
+use std::ffi::OsString;
+
+/// switch -a, OsString argument -b/--beta (optional), OsString positionals
+pub fn pt() -> OptionParser<(bool, Option<OsString>, Vec<OsString>)> {
+    let a = short('a').long("alpha").switch();
+    let b = short('b').long("beta").argument::<OsString>("B").optional();
+    let xs = positional::<OsString>("XS").many();
+    construct!(a, b, xs).to_options()
+}
